@@ -1300,15 +1300,20 @@ class BaseMatcher:
         """
         node_max = None
         node_max_ne = 0
+        # Iterate over the layers in order and not over values_all(). The latter is a set that is
+        # ordered by the hash of a string and the selected node would depend on the hash seed.
         if last_is_e:
-            for m in self.lattice[start_idx].values_all():  # type:BaseMatching
-                if not m.stop and (node_max is None or m.logprob > node_max.logprob):
-                    node_max = m
+            for layer in self.lattice[start_idx].o:
+                for m in layer.values():  # type:BaseMatching
+                    if not m.stop and (node_max is None or m.logprob > node_max.logprob):
+                        node_max = m
         else:
-            for m in self.lattice[start_idx].values_all():  # type:BaseMatching
-                if not m.stop and (node_max is None or m.obs_ne > node_max_ne or m.logprob > node_max.logprob):
-                    node_max_ne = m.obs_ne
-                    node_max = m
+            for layer in self.lattice[start_idx].o:
+                for m in layer.values():  # type:BaseMatching
+                    if not m.stop and (node_max is None or m.obs_ne > node_max_ne or
+                                       (m.obs_ne == node_max_ne and m.logprob > node_max.logprob)):
+                        node_max_ne = m.obs_ne
+                        node_max = m
         if node_max is None:
             logger.error("Did not find a matching node for path point at index {}".format(start_idx))
             return None
